@@ -4,6 +4,7 @@ package props
 
 import (
 	"fmt"
+	"iter"
 	"math/rand/v2"
 
 	"github.com/creachadair/mds/stree"
@@ -23,12 +24,12 @@ func init() {
 				Flavours: []string{"plain", "race", "cover"},
 				Blocks:   32,
 				Procs:    16,
-				Rule: "(i) rebuild sweep (seed-independent): the delete-side whole-tree rebuild is forced to run at exactly size s for every s <= 400 (2500 thorough) and for 2^k-3..2^k+3, k <= 13 (16), and the contents are compared afterwards; (ii) case = (beta, comparator granularity incl. comparators that return differences instead of -1/0/+1, bulk-New keys, phase-structured history of Add/Replace/Remove/Clear/Clone over up to 3 live trees). " +
+				Rule: "(o) sparse-observation histories (trees of 64+ keys, operations chosen with locality, only the results of Get/Min/Max/Add/Replace/Remove themselves observed, on a tree and its clones), nested and interleaved scans (InorderAfter started inside a running scan; pull iterators on a tree and its clone stepped alternately), 8 goroutines each working on its own Clone of one prototype (also under -race); (i) rebuild sweep (seed-independent): the delete-side whole-tree rebuild is forced to run at exactly size s for every s <= 400 (2500 thorough) and for 2^k-3..2^k+3, k <= 13 (16), and the contents are compared afterwards; (ii) case = (beta, comparator granularity incl. comparators that return differences instead of -1/0/+1, bulk-New keys, phase-structured history of Add/Replace/Remove/Clear/Clone over up to 3 live trees). " +
 					"Phases: ascending / descending / zig-zag / random inserts, mixed random ops, drains (to empty, to 1/8, to 1/2; ascending, descending, random order), forced two-child removals followed by Get of the promoted successor, Clear, Clone. " +
 					"After EVERY call: Len, IsEmpty, Min, Max, full Inorder (with stored tags), Inorder early stop, Get for all/sampled keys, InorderAfter for sampled keys with early stop. " +
 					"beta: quick uses {0,1,2,50,100,250,500,750,999,1000}; thorough additionally sweeps every beta in 0..1000. " +
 					"distinct = hash of (beta, div, every op with its key); non-trivial = the history contained a scapegoat rebuild on insert, a delete-side whole rebuild, or a two-child removal (detected from the tree shape read through Root/Left/Right)",
-				Required:     []string{"insert_rebuilds", "delete_rebuilds", "two_child_removals", "new_with_duplicates", "clones", "replace_existing", "steps", "histories_with_wide_comparator", "rebuilds_at_exact_size", "clone_worker_rounds"},
+				Required:     []string{"insert_rebuilds", "delete_rebuilds", "two_child_removals", "new_with_duplicates", "clones", "replace_existing", "steps", "histories_with_wide_comparator", "rebuilds_at_exact_size", "clone_worker_rounds", "sparse_observation_histories", "nested_scan_cases"},
 				Assumptions:  []string{"reference model: sorted slice with textbook set semantics", "tree shape for reach counters is read through stree.Cursor (checked separately by C03)"},
 				CoverPkgs:    []string{"github.com/creachadair/mds/stree"},
 				CoverAnchors: []string{"stree/stree.go", "stree/node.go"},
@@ -397,6 +398,191 @@ func c01rebuildSweep(c *fw.Ctx, base int) {
 	}
 }
 
+// c01sparse: a tree of at least 64 keys, then operations chosen with locality
+// whose own results are the only thing observed (Get, Min, Max, Add, Replace,
+// Remove, on the tree and on a Clone taken in the middle); the full comparison
+// runs every 400 operations and at the end. The dense histories read the whole
+// tree after every call, which would reset anything the tree remembers from
+// one call to the next.
+func c01sparse(c *fw.Ctx, r *rand.Rand, beta int) {
+	ref := &refSet{div: 1}
+	if r.IntN(3) == 0 {
+		ref.wide = 2
+	}
+	h := &c01hist{c: c, r: r, beta: beta, div: 1, h: fw.NewH()}
+	n0 := 64 + r.IntN(300)
+	var keys []Elem
+	for i := 0; i < n0; i++ {
+		e := Elem{Key: 2 * i, Tag: h.newTag()}
+		keys = append(keys, e)
+		ref.es = append(ref.es, e)
+	}
+	r.Shuffle(len(keys), func(i, j int) { keys[i], keys[j] = keys[j], keys[i] })
+	t := stree.New(beta, ref.cmp, keys...)
+	h.trees = []*c01tree{{t: t, ref: ref}}
+	h.log.add("t0 := New(beta=%d, %d keys 0,2,4,...)  (sparse observation)", beta, n0)
+	last := r.IntN(2 * n0)
+	nops := 800 + r.IntN(c.Pick(1500, 6000))
+	for i := 0; i < nops && !h.failed; i++ {
+		ti := r.IntN(len(h.trees))
+		tr := h.trees[ti]
+		if r.IntN(3) != 0 {
+			last += r.IntN(7) - 3
+		} else {
+			last = r.IntN(2*n0 + 20)
+		}
+		k := last
+		h.steps++
+		c.Step()
+		c.Add("steps", 1)
+		switch op := r.IntN(14); {
+		case op < 4:
+			got, ok := tr.t.Get(Elem{Key: k, Tag: -1})
+			h.log.add("t%d.Get(%d)", ti, k)
+			j, present := tr.ref.find(k)
+			var want Elem
+			if present {
+				want = tr.ref.es[j]
+			}
+			if ok != present || got != want {
+				h.fail("Get(%d)=(%v,%v) want (%v,%v)", k, got, ok, want, present)
+			}
+		case op < 6:
+			e := Elem{Key: k, Tag: h.newTag()}
+			h.log.add("t%d.Add(%v)", ti, e)
+			if got, want := tr.t.Add(e), tr.ref.add(e); got != want {
+				h.fail("Add(%v)=%v want %v", e, got, want)
+			}
+		case op < 8:
+			e := Elem{Key: k, Tag: h.newTag()}
+			h.log.add("t%d.Replace(%v)", ti, e)
+			if got, want := tr.t.Replace(e), tr.ref.replace(e); got != want {
+				h.fail("Replace(%v)=%v want %v", e, got, want)
+			}
+		case op < 11:
+			h.log.add("t%d.Remove(%d)", ti, k)
+			if got, want := tr.t.Remove(Elem{Key: k}), tr.ref.remove(k); got != want {
+				h.fail("Remove(%d)=%v want %v", k, got, want)
+			}
+		case op < 12:
+			h.log.add("t%d.Min()/Max()", ti)
+			var wmin, wmax Elem
+			if n := len(tr.ref.es); n > 0 {
+				wmin, wmax = tr.ref.es[0], tr.ref.es[n-1]
+			}
+			if gmin, gmax := tr.t.Min(), tr.t.Max(); gmin != wmin || gmax != wmax {
+				h.fail("Min/Max = %v/%v want %v/%v", gmin, gmax, wmin, wmax)
+			}
+			// the extremes are the next targets (in-place Replace of an extreme key after Min/Max)
+			if r.IntN(2) == 0 && len(tr.ref.es) > 0 {
+				last = wmin.Key
+			} else if len(tr.ref.es) > 0 {
+				last = wmax.Key
+			}
+		case op < 13:
+			if len(h.trees) < 3 {
+				h.log.add("t%d := t%d.Clone()", len(h.trees), ti)
+				h.trees = append(h.trees, &c01tree{t: tr.t.Clone(), ref: tr.ref.clone()})
+				c.Add("clones", 1)
+			}
+		default:
+			h.log.add("t%d.Len()", ti)
+			if tr.t.Len() != len(tr.ref.es) {
+				h.fail("Len=%d want %d", tr.t.Len(), len(tr.ref.es))
+			}
+		}
+		if i%400 == 399 && !h.failed {
+			for j := range h.trees {
+				h.checkTree(j, k)
+			}
+		}
+	}
+	for j := range h.trees {
+		if !h.failed {
+			h.checkTree(j, last)
+		}
+	}
+	c.Add("sparse_observation_histories", 1)
+}
+
+// c01nested: scans started while another scan is in progress, on the same tree
+// and on a clone (nested range loops and iter.Pull iterators stepped alternately).
+func c01nested(c *fw.Ctx, r *rand.Rand, beta int) {
+	n := 8 + r.IntN(60)
+	var keys []Elem
+	for i := 0; i < n; i++ {
+		keys = append(keys, Elem{Key: 3 * i, Tag: i + 1})
+	}
+	t := stree.New(beta, cmpElem, keys...)
+	dup := t.Clone()
+	data := map[string]any{"scenario": "nested and interleaved scans", "beta": beta, "keys": fmt.Sprintf("0,3,...,%d", 3*(n-1))}
+	after := func(tr *stree.Tree[Elem], k int) []int {
+		var out []int
+		for e := range tr.InorderAfter(Elem{Key: k}) {
+			out = append(out, e.Key)
+		}
+		return out
+	}
+	want := func(k int) []int {
+		var out []int
+		for _, e := range keys {
+			if e.Key >= k {
+				out = append(out, e.Key)
+			}
+		}
+		return out
+	}
+	for trial := 0; trial < 6; trial++ {
+		k1, k2 := r.IntN(3*n), r.IntN(3*n)
+		var outer []int
+		for e := range t.InorderAfter(Elem{Key: k1}) {
+			outer = append(outer, e.Key)
+			// an inner scan on the same tree, and one on the clone, in the middle of the outer one
+			if len(outer)%3 == 1 {
+				if in := after(t, k2); !equalInts(in, want(k2)) {
+					c.Fail(data, "InorderAfter(%d) started inside a running InorderAfter(%d) loop yields %v", k2, k1, in)
+					return
+				}
+				if in := after(dup, k2+1); !equalInts(in, want(k2+1)) {
+					c.Fail(data, "clone.InorderAfter(%d) started inside a running scan of the original yields %v", k2+1, in)
+					return
+				}
+				n2 := 0
+				t.Inorder(func(Elem) bool { n2++; return n2 < 4 })
+			}
+		}
+		if !equalInts(outer, want(k1)) {
+			c.Fail(data, "InorderAfter(%d) with other scans started inside its loop body yields %v, want %v", k1, outer, want(k1))
+			return
+		}
+		// two pull iterators stepped alternately
+		nx1, st1 := iter.Pull(t.InorderAfter(Elem{Key: k1}))
+		nx2, st2 := iter.Pull(dup.InorderAfter(Elem{Key: k2}))
+		var a, b []int
+		for {
+			e1, ok1 := nx1()
+			e2, ok2 := nx2()
+			if ok1 {
+				a = append(a, e1.Key)
+			}
+			if ok2 {
+				b = append(b, e2.Key)
+			}
+			if !ok1 && !ok2 {
+				break
+			}
+		}
+		st1()
+		st2()
+		if !equalInts(a, want(k1)) || !equalInts(b, want(k2)) {
+			c.Fail(data, "two InorderAfter iterators (tree from %d, clone from %d) stepped alternately yield %v and %v", k1, k2, a, b)
+			return
+		}
+		c.Step()
+	}
+	c.Add("nested_scan_cases", 1)
+}
+
 func runC01(c *fw.Ctx) {
 	// trees cloned from one prototype, each used by its own goroutine only
 	for k := 0; k < c.Pick(2, 12); k++ {
@@ -414,6 +600,20 @@ func runC01(c *fw.Ctx) {
 		return
 	}
 	c01rebuildSweep(c, 1<<20)
+	for k := 0; k < c.Pick(6, 60); k++ {
+		if !c.Begin(1<<21 + k) {
+			continue
+		}
+		r := c.Rng()
+		beta := []int{0, 100, 250, 500, 1000}[r.IntN(5)]
+		ok, pv, stack := fw.Try(func() {
+			c01sparse(c, r, beta)
+			c01nested(c, r, beta)
+		})
+		if !ok {
+			c.FailKind("panic", map[string]any{"phase": "sparse-observation / nested-scan case", "beta": beta}, "panic: %v\n%s", pv, stack)
+		}
+	}
 	betas := []int{0, 1, 2, 50, 100, 250, 500, 750, 999, 1000}
 	ncases := c.Pick(110, 900)
 	for i := 0; i < ncases; i++ {
